@@ -122,6 +122,13 @@ def tasks(tier):
     ts.append(Task(f"gate[{s}]", mk_gate(s, True)))
     ts.append(Task(f"gate non-refresh[{s}]", mk_gate(s, False)))
   ts.append(Task("gate[sharded_update_fn]", t_sharded))
+  # "stored preconditioners stay finite ... whatever happens to statistics (singular ...)": an accepted root must be
+  # DEFINED.  The eigh routine's reported error does not see the root, so its definedness is an obligation of its own
+  # (shared with C01): the base of every inverse p-th power is > 0 whatever eigenvalues eigh returns.
+  from contracts import c01
+  for rel in (True, False):
+    for pad in (True, False):
+      ts.append(Task(f"accepted eigh root is defined[relative_eps={rel},padded={pad}]", c01.mk_eigh(rel, pad)))
   return ts
 
 
